@@ -1,0 +1,60 @@
+//go:build verif
+
+package ship
+
+import (
+	"time"
+
+	"github.com/enbility/ship-go/model"
+)
+
+// Verification hooks (build tag "verif" only): read-only projection of a connection
+// and direct control of the handshake timer for model-based replay.
+
+// VerifSnap is the projection of a connection the replay harness compares with the specification
+type VerifSnap struct {
+	State          model.ShipMessageExchangeState
+	TimerRunning   bool
+	TimerType      int
+	LastWaitingSet bool
+	ReaderSet      bool
+	BufLen         int
+	RemoteShipID   string
+}
+
+func (c *ShipConnection) VerifSnapshot() VerifSnap {
+	c.bufferMux.Lock()
+	bufLen := len(c.spineBuffer)
+	c.bufferMux.Unlock()
+
+	return VerifSnap{
+		State:          c.getState(),
+		TimerRunning:   c.getHandshakeTimerRunning(),
+		TimerType:      int(c.getHandshakeTimerType()),
+		LastWaitingSet: c.lastReceivedWaitingValue != 0,
+		ReaderSet:      c.dataReader != nil,
+		BufLen:         bufLen,
+		RemoteShipID:   c.remoteShipID,
+	}
+}
+
+// VerifFireTimeout lets the armed handshake timer expire now: it does what the
+// timer goroutine does on expiry. Returns false if no timer is armed.
+func (c *ShipConnection) VerifFireTimeout() bool {
+	if !c.getHandshakeTimerRunning() {
+		return false
+	}
+	c.stopHandshakeTimer()
+	c.handleState(true, nil)
+	return true
+}
+
+// VerifArmTimer arms the handshake timer with the given type and duration
+func (c *ShipConnection) VerifArmTimer(timerType int, d time.Duration) {
+	c.setHandshakeTimer(timeoutTimerType(timerType), d)
+}
+
+// VerifStopTimer stops the handshake timer
+func (c *ShipConnection) VerifStopTimer() {
+	c.stopHandshakeTimer()
+}
